@@ -99,6 +99,7 @@ def load_known():
 def _work(args):
     modname, chunk = args
     mod = sys.modules[modname]
+    _t0 = time.time()
     out = {
         "cases": 0,
         "transitions": 0,
@@ -150,6 +151,8 @@ def _work(args):
                     out["extra"].setdefault(k, v)
     except Exception:
         out["error"] = "chunk %r: %s" % (chunk, traceback.format_exc())
+    out["secs"] = time.time() - _t0
+    out["chunk"] = chunk
     return out
 
 
@@ -169,6 +172,10 @@ def run_check(mod, tier, seed, only_case=None):
     else:
         results = [_work(j) for j in jobs]
 
+    if os.environ.get("VERIF_TIMING"):
+        for r in sorted(results, key=lambda r: -r["secs"])[:12]:
+            print("TIMING %.1fs %s" % (r["secs"], str(r["chunk"])[:150]))
+        print("TIMING total cpu %.0fs" % sum(r["secs"] for r in results))
     errors = [r["error"] for r in results if r["error"]]
     if errors:
         print("HARNESS-ERROR property=%s %s" % (prop, errors[0]))
